@@ -141,3 +141,90 @@ func c13Lazy(r *mon.Run, t *chainlab.Tree, node *chainlab.TestNode, rng *rand.Ra
 		r.Violation("txnset-not-accepted:after-tip-change", "the set returned by V2TransactionSet is not accepted by the pool: "+err.Error(), cs, describeV2Set(set))
 	}
 }
+
+// runC13ForkLimit: the 144-block limit applies to the WHOLE path between two
+// indices on different branches (reverts plus applies), not to each direction.
+func runC13ForkLimit(r *mon.Run, stream uint64) {
+	rng := r.RNG(stream)
+	p := chainlab.RandomParams("v2only", rng)
+	env := chainlab.NewEnv(p)
+	t := chainlab.NewTree(env, rng)
+	trunk := t.Root
+	for i := 0; i < 4; i++ {
+		trunk = t.Extend(trunk, chainlab.Profile{MaxTxns: 3})
+	}
+	la := 70 + rng.IntN(12) // 70..81
+	lb := la + 1
+	a, b := trunk, trunk
+	var pa, pb []*chainlab.Node
+	for i := 0; i < la; i++ {
+		if i < 4 {
+			a = t.Extend(a, chainlab.Profile{MaxTxns: 3})
+		} else {
+			a = t.ExtendEmpty(a, zeroT)
+		}
+		pa = append(pa, a)
+	}
+	for i := 0; i < lb; i++ {
+		b = t.ExtendEmpty(b, zeroT)
+		pb = append(pb, b)
+	}
+	if !a.ChainValid || !b.ChainValid {
+		r.Inconclusive("generator built an invalid branch")
+		return
+	}
+	node, err := chainlab.NewTestNode(env, nil)
+	if err != nil {
+		r.Inconclusive(err.Error())
+		return
+	}
+	cm := node.CM
+	for _, batch := range [][]*chainlab.Node{trunk.PathFromGenesis(), pa, pb} {
+		if err := cm.AddBlocks(chainlab.Blocks(batch)); err != nil {
+			r.Violation("setup", err.Error(), nil, nil)
+			return
+		}
+	}
+	if cm.Tip().ID != b.ID {
+		return // b was not sufficiently heavier: no verdict
+	}
+	// from points on branch A: its tip (path la+lb > 144) and a node near the fork
+	near := pa[144-lb-1-rng.IntN(20)] // reverts + lb applies <= 144
+	for _, from := range []*chainlab.Node{a, near} {
+		set := buildV2Set(t, from, rng)
+		if len(set) == 0 {
+			continue
+		}
+		in := make([]types.V2Transaction, len(set))
+		for i := range set {
+			in[i] = set[i].DeepCopy()
+		}
+		dist := int(from.Height-trunk.Height) + lb
+		cs := c13Case{Stream: stream, Params: p, From: from.Idx, To: b.Idx, Revert: int(from.Height - trunk.Height), Apply: lb, Set: describeV2Set(set)}
+		var out []types.V2Transaction
+		var uerr error
+		if pn := mon.Guard(func() { out, uerr = cm.UpdateV2TransactionSet(in, from.L.State.Index, b.L.State.Index) }); pn != nil {
+			r.Violation("update-panic:fork-path", fmt.Sprint("UpdateV2TransactionSet panicked on a long fork path: ", pn), cs, nil)
+			return
+		}
+		r.Eval()
+		r.Count(fmt.Sprintf("fork_path:over_limit=%v:ok=%v", dist > 144, uerr == nil), 1)
+		if dist > 144 {
+			if uerr == nil {
+				r.Violation("path-over-limit-accepted", fmt.Sprintf("an update over %d reverted + %d applied blocks (%d > 144) was not refused", cs.Revert, cs.Apply, dist), cs, nil)
+			}
+			continue
+		}
+		if uerr != nil {
+			// spent-at-target or never-existed elements are legitimate refusals here
+			r.Count("fork_path:in_range_refused", 1)
+			continue
+		}
+		for _, x := range out {
+			if err := b.L.State.Elements.ValidateTransactionElements(x); err != nil {
+				r.Violation("updated-proof-invalid", "an updated transaction does not verify against the target accumulator: "+err.Error(), cs, nil)
+			}
+		}
+		r.Distinct(fmt.Sprintf("forklimit/%d/%d", stream, dist))
+	}
+}
